@@ -119,9 +119,25 @@ func checkContactDisplay(res *hx.Result, sc *scenario, n *node, path string, red
 func runScenario(sc *scenario, seed uint64, res *hx.Result, em *emitter, allPaths bool) scenarioOutcome {
 	var oc scenarioOutcome
 	var runs [2][2]*sessionRun // [policy: 0 = urns, 1 = none][side]
+	var tplLists [][]string // per observation point, fixed by side A under the policy, reused for side B
 	for pol := 0; pol < 2; pol++ {
 		for side := 0; side < 2; side++ {
-			runs[pol][side] = runSession(sc, side, pol == 0, seed)
+			var tplsFor func(int, *node) []string
+			if pol == 0 && side == 0 {
+				tplsFor = func(i int, ctx *node) []string {
+					l := templatesFor(ctx, allPaths)
+					tplLists = append(tplLists, l)
+					return l
+				}
+			} else if pol == 0 {
+				tplsFor = func(i int, ctx *node) []string {
+					if i < len(tplLists) {
+						return tplLists[i]
+					}
+					return templatesFor(ctx, allPaths)
+				}
+			}
+			runs[pol][side] = runSession(sc, side, pol == 0, seed, tplsFor)
 			if e := runs[pol][side].Err; e != "" {
 				// a recipe the engine refuses is a generator defect, not a property failure: report loudly
 				res.Fail("harness:session-error", sc, e)
@@ -213,10 +229,7 @@ func runScenario(sc *scenario, seed uint64, res *hx.Result, em *emitter, allPath
 			res.Fail("leak:engine-evaluated:"+evKind, sc, fmt.Sprintf("%s: engine-evaluated text differs between URN twins under the policy: %s", oa.Point, first))
 		}
 		// generated templates
-		tpls := templatesFor(oa.Ctx, allPaths)
-		evalTemplates(oa, tpls)
-		evalTemplates(ob, tpls)
-		for j := range oa.Tpls {
+		for j := 0; j < len(oa.Tpls) && j < len(ob.Tpls); j++ {
 			res.OracleChecks++
 			oc.templates++
 			ta, tb := oa.Tpls[j], ob.Tpls[j]
